@@ -102,6 +102,7 @@ def run(ctx):
     ctx.extra["device_attributes_that_may_be_None_after_a_response"] = sorted(a for _c, a in optional)
     cfg = Config(ret_sources={SEND: frames}, stop_at=["msmart.lan.LAN.send"], self_attr_vals=optional)
     R = Raises(prog, cfg)
+    ctx.fn(SEND)          # (the function whose result is the taint source must exist under this reading of the names ...)
     seen = set()
     for b in BOUNDARIES:
         fn = ctx.fn(f"{AC}.{b}")
@@ -175,6 +176,8 @@ def run(ctx):
     from ..shared import check as shared_check
     resp = prog.cls("msmart.device.AC.command.Response")
     shared_check(ctx, "C14.c", [resp] + prog.subclasses(resp) + [prog.cls(AC)], "the response classes and the device")
+    ctx.count("frame_source_hits", R.source_hits.get(SEND, 0))          # (... and be reached: otherwise nothing is tainted and everything "holds")
+    ctx.require_min("frame_source_hits", 3)
     ctx.require_min("boundaries", 5)
     ctx.require_min("construct_sites", 1)
     ctx.require_min("raiser_sites", 40)
